@@ -52,7 +52,7 @@ type params struct {
 func (*prop) Cases(seed int64, tier string) []core.Case {
 	loads, synthCases, per := 3, 16, 5
 	if tier == "thorough" {
-		loads, synthCases, per = 10, 40, 20
+		loads, synthCases, per = 10, 120, 20
 	}
 	var cs []core.Case
 	for i := 0; i < loads; i++ {
